@@ -282,7 +282,7 @@ let lane_setup args =
         let mode = function Plain -> "plain" | StartTls -> "starttls" | Ldaps -> "ldaps" in
         match plan_of repaired18 (bytes_of_string scheme) h p st with
         | PPanic -> "panic"
-        | PErr0 EEmptyUnixPath -> "err:emptyunix" | PErr0 EPortInUnixPath -> "err:portunix" | PErr0 EMismatched -> "err:mismatched" | PErr0 EUnknownScheme -> "err:scheme"
+        | PErr0 EEmptyUnixPath -> "err:emptyunix" | PErr0 EPortInUnixPath -> "err:portunix" | PErr0 EMismatched -> "err:mismatched" | PErr0 EUnknownScheme -> "err:scheme" | PErr0 EStartTlsUnix -> "err:io no-contact"
         | PTcp (_, port, m, _) -> Printf.sprintf "tcp port=%s mode=%s" (decimal_of_n port) (mode m)
         | PPreTcp (m, _) -> "pretcp mode=" ^ mode m
         | PUnix path ->       (* the lane listens on one socket path only: any other path cannot be connected to *)
